@@ -32,9 +32,19 @@ import CpModel.Gen.C06Tables
   redirect pages and of the multipart boundary (`Pages`); `get_ranges` (its result is an input —
   C16 owns it); charset codecs other than UTF-8 / Latin-1 / ASCII; Accept-Charset negotiation is
   reduced to the ordered list of charsets `find_acceptable_charset` tries (C17 owns it).
-  Not modelled: cookies, `Age`/`Date` values, logging, custom `error_page` callables that return
-  non-bytes, HTTP/1.0 requests, `Pragma: no-cache` / `Cache-Control` request handling in caching.get,
-  cache expiry (age is 0 in every modelled history), sizes above `maxobj_size`.
+  Not modelled: cookies, `Age`/`Date` values, logging, sizes above `maxobj_size`.
+
+  Round 2 additions: nested iterators of any depth (a nested chunk carries its leaves in iteration
+  order — bytes, str or a raising producer; `flatten` is recursive, so depth is not observable), the
+  stages before the page handler (`tools.accept` 406, `tools.json_in` 400 / 411 / 415 while the request
+  body is processed, `tools.response_headers` setting Content-Length, `tools.json_out` at priority 30,
+  `tools.staticfile` / `tools.staticdir` at 50 — the page handler and the encode wrapper are skipped —,
+  `tools.trailing_slash` 301 at 60), `validate_since` inside `serve_file` (If-Modified-Since -> 304 /
+  412), HTTP/1.0 requests (no ranges, default redirect status 302), `tools.sessions` (`sessions.save`,
+  failsafe, collapses an iterator body), `tools.autovary`, failsafe hooks in `HookMap.run`,
+  XML-RPC responses (`xmlrpcutil._set_response` for results and faults), a custom `request.error_response`.
+  Two behaviours are read from the live code into `Gen.C06` flags so that the model follows a repair:
+  `encodeStreamKeepsCL` (finding C06-F1) and `xmlrpcCountsChars` (finding C06-F2).
 -/
 namespace CpModel.Finalize
 
@@ -42,12 +52,24 @@ abbrev Bytes := List UInt8
 
 /-! ### bodies -/
 
+/-- what a nested iterator (of any depth) yields, in iteration order -/
+inductive Leaf where
+  | bytes (b : Bytes)
+  | text (t : List Char)
+  | raise
+  deriving DecidableEq, Repr
+
 inductive Chunk where
   | bytes (b : Bytes)
   | text (t : List Char)          -- a `str` chunk
-  | nested (cs : List Bytes)      -- an iterator chunk (what tools.flatten is for)
+  | nested (ls : List Leaf)       -- an iterator chunk (what tools.flatten is for): its leaves
   | raise                         -- the producer raises here
   deriving DecidableEq, Repr
+
+def Leaf.toChunk : Leaf → Chunk
+  | .bytes b => .bytes b
+  | .text t => .text t
+  | .raise => .raise
 
 inductive Kind where
   | list | iter
@@ -113,8 +135,13 @@ inductive Charset where
   deriving DecidableEq, Repr
 
 inductive CtBase where
-  | textHtml | textPlain | appJson | octet | multipart
+  | textHtml | textPlain | appJson | octet | multipart | textXml
   deriving DecidableEq, Repr
+
+/-- `ct.value.lower().startswith('text/')` -/
+def CtBase.isText : CtBase → Bool
+  | .textHtml | .textPlain | .textXml => true
+  | _ => false
 
 inductive HVal where
   | nat (n : Nat)                               -- an int or its decimal text
@@ -150,6 +177,8 @@ structure Resp where
   src : Src := .none
   gz : Bool := false               -- ghost: body went through compress
   fired : Bool := false            -- the probe hook already acted in this request
+  sessSaved : Bool := false        -- hasattr(request, '_sessionsaved')
+  sessInit : Bool := true          -- hasattr(cherrypy.serving, 'session'): sessions.init (before_request_body) ran
 
 inductive Exn where
   | httpError (code : Nat)
@@ -186,6 +215,14 @@ inductive CC where
   | none | maxAge (n : Nat) | noCache | pragma | noStore | badMaxAge
   deriving DecidableEq, Repr
 
+/-- the request entity, as far as `tools.json_in` cares -/
+inductive Entity where
+  | none          -- what the other requests carry: an empty urlencoded form
+  | jsonOk        -- application/json, well-formed
+  | jsonBad       -- application/json, not a JSON document
+  | noLength      -- application/json without Content-Length
+  deriving DecidableEq, Repr
+
 structure Req where
   method : Method := .get
   ae : AEnc := .absent
@@ -196,6 +233,11 @@ structure Req where
   ranges : Option (List (Nat × Nat)) := none   -- get_ranges(Range, size) for a static body
   cc : CC := .none
   now : Nat := 0                       -- logical clock: `response.time` of this request (seconds)
+  http10 : Bool := false               -- request.protocol < (1, 1)
+  ims : Bool := false                  -- If-Modified-Since equals the static file's Last-Modified
+  acceptOk : Bool := true              -- the Accept header admits the media type of tools.accept
+  noSlash : Bool := false              -- the path names an index resource without its trailing slash
+  entity : Entity := .none             -- the request entity as tools.json_in sees it (POST only)
 
 def Req.safe (r : Req) : Bool := r.method != .post    -- method in ('GET', 'HEAD')
 
@@ -205,6 +247,10 @@ abbrev Out := Resp × Option Exn
 
 def legal (c : Nat) : Bool := Gen.C06.legalCodes.contains c
 def noBody (c : Nat) : Bool := Gen.C06.noBodyCodes.contains c
+/-- the same for a streamed response (read from the live `finalize` with `stream = True`) -/
+def noBodyS (c : Nat) : Bool := Gen.C06.noBodyStreamCodes.contains c
+/-- does `finalize` remove Content-Length and the body for this status? -/
+def strips (stream : Bool) (c : Nat) : Bool := if stream then noBodyS c else noBody c
 def ieSize (c : Nat) : Nat := (Gen.C06.ieSizes.lookup c).getD 0
 /-- 0 = page with Location, 1 = 304, 2 = 305, none = "status code is unknown" -/
 def redirKind (c : Nat) : Option Nat := Gen.C06.redirKinds.lookup c
@@ -259,6 +305,8 @@ def cachePut (c : Option Cache) (rq : Req) (e : Entry) : Option Cache :=
 def teeDone (c : Option Cache) (rq : Req) (r : Resp) (code : Nat) (chunks : List Chunk) :
     Option (Option Cache) :=
   if !r.tee then some c else
+  -- `'no-cache' in response.headers.values('Pragma')` (set by tools.expires with secs=0): passed through, not stored
+  if (r.hdrs .pragma).isSome then some c else
   match join chunks with
   | none => none
   | some b =>
@@ -279,16 +327,17 @@ def finalize (rq : Req) (s : St) : St × Option Exn :=
   | none => (s, some (.httpError 500))
   | some code =>
     let r := { r with status := some code }
-    if r.stream then
-      let h := if r.hdrs .contentLength = some .pyNone then r.hdrs.del .contentLength else r.hdrs
-      ({ s with r := { r with hdrs := h } }, none)
-    else if noBody code then
+    if strips r.stream code then
+      -- "All 1xx, 204 and 304 responses MUST NOT include a message-body": tested first, streamed or not
       let r := { r with hdrs := r.hdrs.del .contentLength }
       -- _flush_body: consume(iter(body))
       if hasRaise r.body.chunks then ({ s with r := r }, some .exc) else
       match teeDone s.cache rq r code r.body.chunks with
       | none => ({ s with r := r }, some .exc)
       | some c => ({ r := { r with body := ⟨.list, []⟩, tee := false }, cache := c }, none)
+    else if r.stream then
+      let h := if r.hdrs .contentLength = some .pyNone then r.hdrs.del .contentLength else r.hdrs
+      ({ s with r := { r with hdrs := h } }, none)
     else
       match r.hdrs .contentLength with
       | some (.nat _) => ({ s with r := r }, none)      -- user/tool supplied length is kept
@@ -362,12 +411,31 @@ def setResponse (pg : Pages) : Exn → Resp → Out
 
 /-! ### the before_finalize tools -/
 
-/-- `expires(secs=60, force=True)`: only the Expires header -/
-def expiresStep (r : Resp) : Out := ({ r with hdrs := r.hdrs.set .expires .other }, none)
+/-- `tools.expires` configuration: (secs = 60 | 0) × force -/
+inductive ExpiresCfg where
+  | secs60Force | zeroForce | secs60 | zero
+  deriving DecidableEq, Repr
+
+def ExpiresCfg.force : ExpiresCfg → Bool
+  | .secs60Force | .zeroForce => true
+  | _ => false
+
+def ExpiresCfg.isZero : ExpiresCfg → Bool
+  | .zeroForce | .zero => true
+  | _ => false
+
+/-- `expires(secs, force)`: headers only.  Without `force` nothing happens unless ETag / Last-Modified / Age /
+    Expires is already there; `secs=0` marks the response `Pragma: no-cache` (which `tee_output` honours). -/
+def expiresStep (cfg : ExpiresCfg) (r : Resp) : Out :=
+  let cacheable := (r.hdrs .etag).isSome || (r.hdrs .lastModified).isSome || (r.hdrs .age).isSome ||
+                   (r.hdrs .expires).isSome
+  if !cacheable && !cfg.force then (r, none) else
+  let h := if cfg.isZero then (r.hdrs.set .pragma .other).set .cacheControl .other else r.hdrs
+  ({ r with hdrs := h.set .expires .other }, none)
 
 def flattenChunks : List Chunk → List Chunk
   | [] => []
-  | .nested bs :: cs => bs.map Chunk.bytes ++ flattenChunks cs
+  | .nested ls :: cs => ls.map Leaf.toChunk ++ flattenChunks cs
   | c :: cs => c :: flattenChunks cs
 
 /-- `flatten`: the body becomes the flattener generator -/
@@ -443,9 +511,30 @@ inductive ProbeAct where
   deriving DecidableEq, Repr
 
 inductive Step where
-  | expires | flatten | etags | gzip | tee
+  | expires (cfg : ExpiresCfg) | flatten | etags | gzip | tee
   | probe (act : ProbeAct) (once : Bool)
+  | sessions | autovary
   deriving DecidableEq, Repr
+
+/-- `sessions.save` (before_finalize, priority 50, failsafe): runs once per request; when the response is
+    not streamed and its body is an iterator, `response.collapse_body()` -/
+def sessionsStep (r : Resp) : Out :=
+  if !r.sessInit || r.sessSaved then (r, none) else
+  let r := { r with sessSaved := true }
+  if r.stream then (r, none) else
+  if r.body.kind == .iter then
+    match collapse r with
+    | none => (r, some .exc)
+    | some (r', _) => (r', none)
+  else (r, none)
+
+/-- the hook `tools.autovary` attaches at priority 95: only the Vary header -/
+def autovaryStep (r : Resp) : Out := ({ r with hdrs := r.hdrs.set .vary .other }, none)
+
+/-- `Hook.failsafe`: the hook runs even when an earlier one at the same point raised -/
+def Step.failsafe : Step → Bool
+  | .sessions => true
+  | _ => false
 
 /-- the probe hook; `once` = it acts only the first time it runs in a request (hooks run a second
     time after an HTTPError / HTTPRedirect) -/
@@ -459,20 +548,33 @@ def probeStep (act : ProbeAct) (once : Bool) (r : Resp) : Out :=
   | .setStatus c => ({ r with status := some c }, none)
 
 def applyStep (pg : Pages) (rq : Req) (cached : Bool) : Step → Resp → Out
-  | .expires, r => expiresStep r
+  | .expires cfg, r => expiresStep cfg r
   | .flatten, r => flattenStep r
   | .etags, r => etagsStep rq r
   | .gzip, r => gzipStep pg rq cached r
   | .tee, r => teeStep rq r
   | .probe act once, r => probeStep act once r
+  | .sessions, r => sessionsStep r
+  | .autovary, r => autovaryStep r
 
-/-- `HookMap.run` for non-failsafe hooks: stop at the first exception -/
+/-- `HookMap.run_hooks(safe)`: after a hook raised, the remaining failsafe hooks still run; the exception
+    that finally propagates is the one raised last -/
+def runFailsafe (pg : Pages) (rq : Req) (cached : Bool) : List Step → Resp → Exn → Out
+  | [], r, e => (r, some e)
+  | s :: rest, r, e =>
+    if s.failsafe then
+      match applyStep pg rq cached s r with
+      | (r', none) => runFailsafe pg rq cached rest r' e
+      | (r', some e') => runFailsafe pg rq cached rest r' e'
+    else runFailsafe pg rq cached rest r e
+
+/-- `HookMap.run`: hooks in priority order up to the first exception, then the failsafe ones -/
 def runSteps (pg : Pages) (rq : Req) (cached : Bool) : List Step → Resp → Out
   | [], r => (r, none)
   | s :: rest, r =>
     match applyStep pg rq cached s r with
     | (r', none) => runSteps pg rq cached rest r'
-    | (r', some e) => (r', some e)
+    | (r', some e) => runFailsafe pg rq cached rest r' e
 
 /-! ### the handler stage -/
 
@@ -485,13 +587,14 @@ inductive Shape where
   | fileV (b : Bytes)                  -- an object with .read()
   | staticV (b : Bytes)                -- return serve_file(path) on a file with this content
   | fileObjV (b : Bytes)               -- return serve_fileobj(io.BytesIO(...)): length unknown
+  | xmlrpcV (t : List Char)            -- an XML-RPC method: `xmlrpcutil.respond` on the marshalled text `t`
   deriving DecidableEq, Repr
 
 inductive HStatus where
   | unset
   | set (code : Nat)                   -- response.status = code (999 stands for an illegal value)
   | raiseError (code : Nat)
-  | raiseRedirect (code : Nat)
+  | raiseRedirect (code : Nat)         -- 0 = `HTTPRedirect(url)` without a status: 303, or 302 for HTTP/1.0
   | raiseExc
   deriving DecidableEq, Repr
 
@@ -504,21 +607,60 @@ structure Handler where
   later : List Shape := []             -- what the handler returns on its 2nd, 3rd, … invocation
                                        -- (default: the same value every time)
 
+/-- `request.error_response` -/
+inductive ErrResp where
+  | dflt                               -- HTTPError(500).set_response
+  | custom (code : Nat) (b : Bytes)    -- a callable that sets status and body and pops Content-Length
+  | xmlrpc (t : List Char)             -- tools.xmlrpc (`xmlrpcutil.on_error`): a Fault marshalled as `t`
+  | redirect (code : Nat)              -- a callable that raises HTTPRedirect
+  deriving DecidableEq, Repr
+
 structure Tools where
   encode : Bool := false
   gzip : Bool := false
   etags : Bool := false
   caching : Bool := false
   expires : Bool := false
+  expiresCfg : ExpiresCfg := .secs60Force
   flatten : Bool := false
   stream : Bool := false
   probe : Option (Nat × ProbeAct × Bool) := none     -- (priority, action, once)
   errFails : Bool := false         -- request.error_response is a callable that raises
   jsonOut : Bool := false          -- tools.json_out: sets Content-Type at before_handler (priority 30)
+  rhCL : Option Nat := none        -- tools.response_headers sets Content-Length (on_start_resource, failsafe)
+  accept : Bool := false           -- tools.accept with one media type
+  jsonIn : Bool := false           -- tools.json_in (force=True)
+  noSlashTool : Bool := false      -- tools.trailing_slash switched off (it is on by default)
+  staticTool : Option Bytes := none  -- tools.staticfile on a file with this content (before_handler 50)
+  sessions : Bool := false         -- tools.sessions
+  autovary : Bool := false         -- tools.autovary
+  errResp : ErrResp := .dflt       -- request.error_response (`errFails` = a callable that raises)
 
 structure Plan where
   h : Handler
   t : Tools := {}
+
+def encodable (cs : Charset) (t : List Char) : Bool :=
+  match cs with
+  | .utf8 => true
+  | .latin1 => t.all (fun c => c.toNat < 256)
+  | .ascii => t.all (fun c => c.toNat < 128)
+
+/-- the UTF-8 encoding of one character (1–4 bytes), written out so that it reduces in the kernel -/
+def utf8Char (c : Char) : Bytes :=
+  let n := c.toNat
+  if n < 0x80 then [UInt8.ofNat n]
+  else if n < 0x800 then [UInt8.ofNat (0xC0 + n / 64), UInt8.ofNat (0x80 + n % 64)]
+  else if n < 0x10000 then
+    [UInt8.ofNat (0xE0 + n / 4096), UInt8.ofNat (0x80 + n / 64 % 64), UInt8.ofNat (0x80 + n % 64)]
+  else
+    [UInt8.ofNat (0xF0 + n / 262144), UInt8.ofNat (0x80 + n / 4096 % 64), UInt8.ofNat (0x80 + n / 64 % 64),
+     UInt8.ofNat (0x80 + n % 64)]
+
+def encodeText (cs : Charset) (t : List Char) : Bytes :=
+  match cs with
+  | .utf8 => t.flatMap utf8Char
+  | _ => t.map (fun c => UInt8.ofNat c.toNat)
 
 /-- `prepare_iter(value)` -/
 def prepareIter : Shape → Body
@@ -530,21 +672,11 @@ def prepareIter : Shape → Body
   | .fileV b => ⟨.iter, oneChunk b⟩
   | .staticV b => ⟨.iter, oneChunk b⟩
   | .fileObjV b => ⟨.iter, oneChunk b⟩
+  | .xmlrpcV t => ⟨.list, oneChunk (encodeText .utf8 t)⟩
 
 /-- ResponseBody.__set__: a `str`, or a `list` containing a `str`, is a ValueError -/
 def setterRejects (b : Body) : Bool :=
   b.kind == .list && b.chunks.any (fun c => match c with | .text _ => true | _ => false)
-
-def encodable (cs : Charset) (t : List Char) : Bool :=
-  match cs with
-  | .utf8 => true
-  | .latin1 => t.all (fun c => c.toNat < 256)
-  | .ascii => t.all (fun c => c.toNat < 128)
-
-def encodeText (cs : Charset) (t : List Char) : Bytes :=
-  match cs with
-  | .utf8 => (String.ofList t).toUTF8.toList
-  | _ => t.map (fun c => UInt8.ofNat c.toNat)
 
 /-- `encode_string` on the materialised body: `none` = this charset cannot encode it -/
 def encodeString (cs : Charset) : List Chunk → Option (List Chunk)
@@ -572,8 +704,11 @@ def tryCharsets : List Charset → List Chunk → Option (Charset × List Chunk)
 def encodeStage (rq : Req) (r : Resp) (body : Body) : Out :=
   match r.hdrs .contentType with
   | some (.ctype base _) =>
-    if base = .textHtml ∨ base = .textPlain then
+    if base.isText then
       if r.stream then
+        -- the streaming branch leaves Content-Length alone ("just pray it works"); a repaired
+        -- encode_stream deletes it like the buffered branch (flag read from the live code)
+        let r := if Gen.C06.encodeStreamKeepsCL then r else { r with hdrs := r.hdrs.del .contentLength }
         match rq.charsets with
         | [] => (r, some (.httpError 406))
         | cs :: _ =>
@@ -581,6 +716,8 @@ def encodeStage (rq : Req) (r : Resp) (body : Body) : Out :=
                     hdrs := r.hdrs.set .contentType (.ctype base (some cs)) }, none)
       else
         let r := { r with hdrs := r.hdrs.del .contentLength }
+        -- no charset to try (a forced `encoding` the client does not admit): 406 without looking at the body
+        if rq.charsets.isEmpty then (r, some (.httpError (if rq.dfltOnly then 500 else 406))) else
         -- list(self.body): a raising producer propagates
         if hasRaise body.chunks then (r, some .exc) else
         match tryCharsets rq.charsets body.chunks with
@@ -591,10 +728,25 @@ def encodeStage (rq : Req) (r : Resp) (body : Body) : Out :=
       if setterRejects body then (r, some .exc) else ({ r with body := body }, none)
   | _ => if setterRejects body then (r, some .exc) else ({ r with body := body }, none)
 
-/-- `_serve_fileobj` for a file with content `b` -/
+/-- `cptools.validate_since()` once Last-Modified is set: `valid_status(response.status)` (a ValueError for an
+    illegal one), then If-Modified-Since equal to Last-Modified -> 304 for GET / HEAD, 412 otherwise -/
+def validateSince (rq : Req) (r : Resp) : Option Exn :=
+  match validStatus r.status with
+  | none => some .exc
+  | some c =>
+    if rq.ims ∧ ((200 ≤ c ∧ c ≤ 299) ∨ c = 304) then
+      (if rq.safe then some (.redirect 304) else some (.httpError 412))
+    else none
+
+/-- `serve_file` -> `_serve_fileobj` for a file with content `b` -/
 def serveFile (pg : Pages) (rq : Req) (b : Bytes) (r : Resp) : Out :=
-  let r := { r with hdrs := (r.hdrs.set .lastModified .other).set .acceptRanges .other }
-  match rq.ranges with
+  let r := { r with hdrs := r.hdrs.set .lastModified .other }
+  match validateSince rq r with
+  | some e => (r, some e)
+  | none =>
+  let r := if rq.http10 then r else { r with hdrs := r.hdrs.set .acceptRanges .other }
+  -- "HTTP/1.0 didn't have Range/Accept-Ranges headers, or the 206 code"
+  match (if rq.http10 then none else rq.ranges) with
   | some [] => ({ r with hdrs := r.hdrs.set .contentRange .other }, some (.httpError 416))
   | some [(start, stop)] =>
     -- `if stop > content_length: stop = content_length`; file_generator_limited(fileobj, r_len)
@@ -647,6 +799,10 @@ def handlerFileObj (rq : Req) (p : Plan) (b : Bytes) (r : Resp) : Out :=
   let r := { r with hdrs := r.hdrs.set .contentLength .pyNone, body := ⟨.iter, oneChunk b⟩ }
   if p.t.encode then encodeStage rq r r.body else (r, none)
 
+/-- `HTTPRedirect(url)` without a status: 303 for HTTP/1.1 requests, 302 for HTTP/1.0 -/
+def redirectCode (rq : Req) (c : Nat) : Nat :=
+  if c = 0 then (if rq.http10 then 302 else 303) else c
+
 /-- any other handler: own Content-Length, status / raise, then the returned value -/
 def handlerPlain (rq : Req) (p : Plan) (shape : Shape) (r : Resp) : Out :=
   let r := match p.h.setCL with
@@ -654,10 +810,32 @@ def handlerPlain (rq : Req) (p : Plan) (shape : Shape) (r : Resp) : Out :=
            | none => r
   match p.h.st with
   | .raiseError c => (r, some (.httpError c))
-  | .raiseRedirect c => (r, some (.redirect c))
+  | .raiseRedirect c => (r, some (.redirect (redirectCode rq c)))
   | .raiseExc => (r, some .exc)
   | .set c => assignBody rq p (shapeIsStr shape) { r with status := some c } (prepareIter shape)
   | .unset => assignBody rq p (shapeIsStr shape) r (prepareIter shape)
+
+/-- the Content-Length `xmlrpcutil._set_response` stores: `len(body)` of the *text* (characters) on the
+    unchanged code, of the encoded bytes once repaired (flag read from the live code) -/
+def xmlLen (t : List Char) : Nat :=
+  if Gen.C06.xmlrpcCountsChars then t.length else (encodeText .utf8 t).length
+
+/-- `xmlrpcutil._set_response(text)`: 200, the text as UTF-8, text/xml, its own Content-Length -/
+def xmlrpcSet (t : List Char) (r : Resp) : Resp :=
+  { r with status := some 200, body := bytesBody (encodeText .utf8 t),
+           hdrs := (r.hdrs.set .contentType (.ctype .textXml none)).set .contentLength (.nat (xmlLen t)),
+           tee := false, src := .handler, gz := false }
+
+/-- `XMLRPCController.default`: the method runs (and may raise), `xmlrpcutil.respond` builds the response,
+    `response.body` is returned (through the encode wrapper when tools.encode is on) -/
+def handlerXmlrpc (rq : Req) (p : Plan) (t : List Char) (r : Resp) : Out :=
+  match p.h.st with
+  | .raiseError c => (r, some (.httpError c))
+  | .raiseRedirect c => (r, some (.redirect (redirectCode rq c)))
+  | .raiseExc => (r, some .exc)
+  | _ =>
+    let r := xmlrpcSet t r
+    if p.t.encode then encodeStage rq r r.body else (r, none)
 
 /-- the page handler -/
 def handlerStage (pg : Pages) (rq : Req) (p : Plan) (r : Resp) : Out :=
@@ -666,6 +844,7 @@ def handlerStage (pg : Pages) (rq : Req) (p : Plan) (r : Resp) : Out :=
   match p.h.shape with
   | .staticV b => handlerStatic pg rq p b r
   | .fileObjV b => handlerFileObj rq p b r
+  | .xmlrpcV t => handlerXmlrpc rq p t r
   | shape => handlerPlain rq p shape r
 
 /-! ### caching.get, the request pipeline -/
@@ -676,23 +855,70 @@ def probeAt (t : Tools) (lo hi : Nat) : List Step :=
   | some (prio, act, once) => if lo ≤ prio ∧ prio < hi then [.probe act once] else []
   | none => []
 
-/-- the before_finalize hooks of a request in priority order (expires 50, flatten 50, etags 75, gzip 80,
-    tee_output 100; the probe wherever its priority puts it) -/
+/-- the before_finalize hooks of a request in priority order (expires 50, flatten 50, sessions.save 50,
+    etags 75, gzip 80, autovary 95, tee_output 100; the probe wherever its priority puts it) -/
 def hooksOf (t : Tools) (teeOn : Bool) : List Step :=
   probeAt t 0 50 ++
-  (if t.expires then [.expires] else []) ++ (if t.flatten then [.flatten] else []) ++
+  (if t.expires then [.expires t.expiresCfg] else []) ++ (if t.flatten then [.flatten] else []) ++
+  (if t.sessions then [.sessions] else []) ++
   probeAt t 51 75 ++
   (if t.etags then [.etags] else []) ++
   probeAt t 76 80 ++
   (if t.gzip then [.gzip] else []) ++
-  probeAt t 81 100 ++
+  probeAt t 81 95 ++
+  (if t.autovary then [.autovary] else []) ++
+  probeAt t 96 100 ++
   (if teeOn then [.tee] else []) ++
   probeAt t 101 1000
 
-/-- a fresh Response (+ `response.stream` from config) -/
-def freshResp (t : Tools) : Resp :=
+/-- a fresh Response (+ `response.stream` from config) after the on_start_resource hooks:
+    `tools.response_headers` (failsafe: it runs whatever else happens there) may have set Content-Length -/
+def freshResp (rq : Req) (t : Tools) : Resp :=
   { stream := t.stream,
-    hdrs := fun k => if k = .contentType then some (.ctype (if t.jsonOut then .appJson else .textHtml) none) else none }
+    sessInit := !(t.accept && !rq.acceptOk),   -- tools.accept (on_start_resource) refuses before sessions.init
+    hdrs := fun k => if k = .contentType then some (.ctype .textHtml none)
+                     else if k = .contentLength then t.rhCL.map HVal.nat else none }
+
+/-- on_start_resource … `request.body.process()`: `tools.accept` (406), then `tools.json_in` with
+    force=True while the entity of a POST is processed (415 for another media type, 411, 400) -/
+def earlyExn (rq : Req) (t : Tools) : Option Exn :=
+  if t.accept && !rq.acceptOk then some (.httpError 406)
+  else if t.jsonIn && rq.method == .post then
+    match rq.entity with
+    | .none => some (.httpError 415)
+    | .jsonOk => none
+    | .jsonBad => some (.httpError 400)
+    | .noLength => some (.httpError 411)
+  else none
+
+/-- `tools.json_out` (before_handler, priority 30): the Content-Type -/
+def jsonOutStage (p : Plan) (r : Resp) : Resp :=
+  if p.t.jsonOut then { r with hdrs := r.hdrs.set .contentType (.ctype .appJson none) } else r
+
+/-- `tools.staticfile` (before_handler, priority 50): for GET / HEAD it serves its file and the page handler —
+    and the encode wrapper around it — is skipped (`request.handler = None`); for other methods it declines.
+    Returns the response, an exception, and whether the page handler is still to run. -/
+def staticToolStage (pg : Pages) (rq : Req) (p : Plan) (r : Resp) : Resp × Option Exn × Bool :=
+  match p.t.staticTool with
+  | some b =>
+    if rq.safe then
+      match serveFile pg rq b { r with hdrs := r.hdrs.set .contentType (.ctype p.h.ct none), src := .handler } with
+      | (r', some e) => (r', some e, true)
+      | (r', none) => (r', none, false)
+    else (r, none, true)
+  | none => (r, none, true)
+
+/-- before_handler up to priority 60: json_out (30), the static tool (50), then `tools.trailing_slash` (60)
+    redirects an index resource requested without its slash (whether or not a body is already there). -/
+def beforeHandlerTools (pg : Pages) (rq : Req) (p : Plan) (r : Resp) : Resp × Option Exn × Bool :=
+  match staticToolStage pg rq p (jsonOutStage p r) with
+  | (r, some e, todo) => (r, some e, todo)
+  | (r, none, todo) =>
+    if !p.t.noSlashTool && rq.noSlash then (r, some (.redirect 301), todo) else (r, none, todo)
+
+/-- the page handler unless a before_handler tool already produced the body (`request.handler = None`) -/
+def runHandler (pg : Pages) (rq : Req) (p : Plan) (todo : Bool) (r : Resp) : Out :=
+  if todo then handlerStage pg rq p r else (r, none)
 
 /-- `MemoryCache.delay` -/
 def cacheDelay : Nat := 600
@@ -712,13 +938,19 @@ def cacheDecision (rq : Req) (ent : Entry) : Sum Exn Bool :=
 /-- before_handler + handler: returns the state, whether the cache was hit, whether tee is attached -/
 def beforeAndHandler (pg : Pages) (rq : Req) (p : Plan) (cache : Option Cache) :
     St × Option Exn × Bool × Bool :=
-  let r := freshResp p.t
+  let r := freshResp rq p.t
+  match earlyExn rq p.t with
+  | some e => (⟨r, cache⟩, some e, false, false)
+  | none =>
+  match beforeHandlerTools pg rq p r with
+  | (r, some e, _) => (⟨r, cache⟩, some e, false, false)
+  | (r, none, todo) =>
   if p.t.caching then
     if rq.method = .post then
-      let (r, e) := handlerStage pg rq p r
+      let (r, e) := runHandler pg rq p todo r
       (⟨r, none⟩, e, false, false)              -- cache.delete(); not cacheable
     else if rq.cc = .pragma then
-      let (r, e) := handlerStage pg rq p r       -- Pragma: no-cache: the cache is not consulted
+      let (r, e) := runHandler pg rq p todo r    -- Pragma: no-cache: the cache is not consulted
       (⟨r, cache⟩, e, false, true)
     else
       match cache.bind (·.find rq) with
@@ -726,17 +958,23 @@ def beforeAndHandler (pg : Pages) (rq : Req) (p : Plan) (cache : Option Cache) :
         match cacheDecision rq ent with
         | .inl e => (⟨r, cache⟩, some e, true, false)      -- raised with request.cached = True, no tee
         | .inr true =>
-          let r := { r with hdrs := ent.hdrs.set .age .other, status := some ent.status,
-                            body := bytesBody ent.body, src := ent.src, gz := ent.gz }
-          (⟨r, cache⟩, none, true, false)
+          -- the stored headers (+ Age) are installed, then `validate_since()` runs against them — before the
+          -- stored status is: a copy with Last-Modified answers If-Modified-Since with 304 whatever it stored
+          let r0 := { r with hdrs := ent.hdrs.set .age .other }
+          match (if (ent.hdrs .lastModified).isSome then validateSince rq r0 else none) with
+          | some e => (⟨r0, cache⟩, some e, true, false)
+          | none =>
+            let r := { r with hdrs := ent.hdrs.set .age .other, status := some ent.status,
+                              body := bytesBody ent.body, src := ent.src, gz := ent.gz }
+            (⟨r, cache⟩, none, true, false)
         | .inr false =>
-          let (r, e) := handlerStage pg rq p r   -- a *fresh* response: nothing of the stored copy
+          let (r, e) := runHandler pg rq p todo r  -- the stored copy is ignored together with its headers
           (⟨r, cache⟩, e, false, true)
       | none =>
-        let (r, e) := handlerStage pg rq p r
+        let (r, e) := runHandler pg rq p todo r
         (⟨r, cache⟩, e, false, true)
   else
-    let (r, e) := handlerStage pg rq p r
+    let (r, e) := runHandler pg rq p todo r
     (⟨r, cache⟩, e, false, false)
 
 /-- hooks + finalize -/
@@ -745,19 +983,31 @@ def hooksAndFinalize (pg : Pages) (rq : Req) (cached : Bool) (hooks : List Step)
   | (r, some e) => ({ s with r := r }, some e)
   | (r, none) => finalize rq { s with r := r }
 
-/-- `handle_error`: error_response = HTTPError(500).set_response, then finalize.
+/-- `request.error_response()` -/
+def errorResponse (pg : Pages) (er : ErrResp) (r : Resp) : Out :=
+  match er with
+  | .dflt => setError pg 500 r
+  | .custom c b =>
+    ({ r with status := some c, body := bytesBody b, hdrs := r.hdrs.del .contentLength, tee := false,
+              src := .customPage, gz := false }, none)
+  | .xmlrpc t => ({ xmlrpcSet t r with src := .tmplPage }, none)   -- (the fault text depends on the exception)
+  | .redirect c => (r, some (.redirect c))
+
+/-- `handle_error`: error_response (default: HTTPError(500).set_response), then finalize; an HTTPRedirect
+    raised on the way is answered by its own set_response + finalize.
     `none` = an exception escaped (run() then answers with bare_error). -/
-def handleError (pg : Pages) (rq : Req) (fails : Bool) (s : St) : Option St :=
+def handleError (pg : Pages) (rq : Req) (fails : Bool) (er : ErrResp) (s : St) : Option St :=
   if fails then none else
-  match setError pg 500 s.r with
+  match errorResponse pg er s.r with
+  | (r, some (.redirect c)) =>
+    -- `except cherrypy.HTTPRedirect: inst.set_response(); response.finalize()`
+    match setRedirect pg c r with
+    | (r, none) => (match finalize rq { s with r := r } with | (s', none) => some s' | _ => none)
+    | _ => none
   | (_, some _) => none
   | (r, none) =>
     match finalize rq { s with r := r } with
     | (s', none) => some s'
-    | (s', some (.redirect c)) =>
-      match setRedirect pg c s'.r with
-      | (r, none) => (match finalize rq { s' with r := r } with | (s'', none) => some s'' | _ => none)
-      | _ => none
     | _ => none
 
 /-- `bare_error()` as installed by `Request.run` -/
@@ -780,24 +1030,24 @@ def firstPass (pg : Pages) (rq : Req) (p : Plan) (cache : Option Cache) :
 /-- the `except` clauses of `respond`: HTTPError / HTTPRedirect -> set_response, the before_finalize
     hooks again, finalize; anything else (also from inside that clause) -> handle_error.
     `none` = an exception escaped to `run`. -/
-def recover (pg : Pages) (rq : Req) (fails cached : Bool) (hooks : List Step) (first : St × Option Exn) :
-    Option St :=
+def recover (pg : Pages) (rq : Req) (fails : Bool) (er : ErrResp) (cached : Bool) (hooks : List Step)
+    (first : St × Option Exn) : Option St :=
   match first with
   | (s, none) => some s
-  | (s, some .exc) => handleError pg rq fails s
+  | (s, some .exc) => handleError pg rq fails er s
   | (s, some e) =>
     match setResponse pg e s.r with
-    | (r, some _) => handleError pg rq fails { s with r := r }
+    | (r, some _) => handleError pg rq fails er { s with r := r }
     | (r, none) =>
       match hooksAndFinalize pg rq cached hooks { s with r := r } with
       | (s, none) => some s
-      | (s, some _) => handleError pg rq fails s
+      | (s, some _) => handleError pg rq fails er s
 
 /-- `Request.respond` (+ the last-resort branch of `run`): the finalized response, before the HEAD
     removal -/
 def respond (pg : Pages) (rq : Req) (p : Plan) (cache : Option Cache) : St × Bool :=
   let (first, cached, hooks) := firstPass pg rq p cache
-  match recover pg rq p.t.errFails cached hooks first with
+  match recover pg rq p.t.errFails p.t.errResp cached hooks first with
   | some s => (s, cached)
   | none => (⟨bareResp pg first.1.r, first.1.cache⟩, cached)
 
@@ -842,12 +1092,22 @@ def planAt (p : Plan) (gen : Nat) : Plan :=
   | 0 => p
   | g + 1 => { p with h := { p.h with shape := p.h.later.getD g (p.h.later.getLastD p.h.shape) } }
 
+/-- does the page handler run for this request?  Not when a tool refused / redirected / answered before it
+    (accept, json_in, the static tool, trailing_slash), not when the cache answered or `caching.get` raised -/
+def handlerRuns (pg : Pages) (rq : Req) (p : Plan) (cache : Option Cache) : Bool :=
+  match earlyExn rq p.t with
+  | some _ => false
+  | none =>
+    match beforeHandlerTools pg rq p (freshResp rq p.t) with
+    | (_, some _, _) => false
+    | (_, none, todo) => todo && !(beforeAndHandler pg rq p cache).2.2.1
+
 /-- a request history against one application: the cache and the number of handler invocations so far
-    are carried from request to request (the handler runs unless the cache answered) -/
+    are carried from request to request -/
 def serveAll (pg : Pages) (p : Plan) : List Req → Option Cache → Nat → List Obs
   | [], _, _ => []
   | rq :: rest, c, gen =>
     let (o, c') := serve pg rq (planAt p gen) c
-    o :: serveAll pg p rest c' (if o.cached then gen else gen + 1)
+    o :: serveAll pg p rest c' (if handlerRuns pg rq (planAt p gen) c then gen + 1 else gen)
 
 end CpModel.Finalize
